@@ -451,7 +451,7 @@ theorem cleanupLoggers_pres (P : BSt → Prop) (hAll : ∀ x, P x → P (allEmpt
   · exact hs
   · simp only []
     have h0 : P { s with hasInvalidLoggers := false } := hcore s _ hs rfl
-    generalize ((List.range ({ s with hasInvalidLoggers := false } : BSt).lgs.length).filter _).mergeSort _ = order
+    generalize insSorted _ ((List.range ({ s with hasInvalidLoggers := false } : BSt).lgs.length).filter _) = order
     have hfold : ∀ (l : List Nat) (acc : BSt × List Nat), P acc.1 →
         P (l.foldl (fun (acc : BSt × List Nat) i =>
           if (acc.1.lgOf i).valid then acc else
